@@ -53,6 +53,12 @@ def layouts():
         Transport(label="t", duration=1),
         ThreeRollPass(label="r3", roll=Roll(groove=RoundGroove(r1=3e-3, r2=25e-3, depth=11e-3, pad_angle=30), nominal_radius=160e-3, rotational_frequency=1), gap=2e-3),
         Rotator(label="rot3", rotation=60)]), ip3, False))
+    out.append(('three-roll-disks', lambda: PassSequence([
+        ThreeRollPass(label="o3", roll=Roll(groove=CircularOvalGroove(depth=8e-3, r1=6e-3, r2=40e-3, pad_angle=30), nominal_radius=160e-3, rotational_frequency=1), gap=2e-3,
+                      disk_element_count=3),
+        Transport(label="t", duration=1, disk_element_count=2),
+        ThreeRollPass(label="r3", roll=Roll(groove=RoundGroove(r1=3e-3, r2=25e-3, depth=11e-3, pad_angle=30), nominal_radius=160e-3, rotational_frequency=1), gap=2e-3,
+                      disk_element_count=1)]), ip3, False))
     return out
 
 
@@ -243,6 +249,26 @@ def run(chk):
                                  f"{type(e).__name__}: {e} - a fresh sequence with the same parameters solves", {'layout': name, 'gap': float(fp.gap)})
                     except Exception:      # noqa
                         chk.notes.append(f"{name}: neither the re-solve nor a fresh sequence solves with the opened gap ({type(e).__name__})")
+            # histories: the disk element counts edited between two solves (any disk element counts: more, fewer, none)
+            def all_units(u):
+                yield u
+                for x in getattr(u, '_subunits', []):
+                    if type(x).__name__ != 'DiskElement':
+                        yield from all_units(x)
+            with_disks = [u for u in all_units(seq) if hasattr(u, 'disk_element_count') and type(u).__name__ != 'DiskElement']
+            if with_disks and not chk.failures and name in ('disks', 'three-roll-disks', 'flat'):
+                for u, cnt in zip(with_disks, (5, 2, 0, 3, 1)):
+                    u.disk_element_count = cnt
+                try:
+                    returned4 = seq.solve(ip2)
+                    check_sequence(chk, name + ' (solved again after the disk element counts were changed to 5, 2, 0, ...)', seq, returned4, ip2, prec)
+                    for u, cnt in zip(with_disks, (5, 2, 0, 3, 1)):
+                        if len(u.disk_elements) != cnt and not chk.failures:
+                            chk.fail('disks-count', f"[{name}] {u}: disk_element_count set to {cnt} before the solve, the unit works with {len(u.disk_elements)} disk elements",
+                                     {'layout': name})
+                    chk.cov['evaluations'] += 1
+                except Exception as e:      # noqa
+                    chk.fail('resolve-fails', f"[{name}] solving again after changing the disk element counts fails with {type(e).__name__}: {e}", {'layout': name})
         finally:
             for hf in ctx:
                 hf.hook.remove_function(hf)
